@@ -11,6 +11,7 @@
 #include "atomics_model.h"
 #include "verif.h"
 #include <patomic.h>
+#include <pmem.h>
 __CPROVER_thread_local int c04_tid;
 void c04_lock_hook(void) {}
 void c04_unlock_hook(void) {}
@@ -31,6 +32,9 @@ static unsigned long long r0, r1;
 static int done1;
 
 void harness(void) {
+#ifdef MODEL_SIM
+  p_mem_restore_vtable();   /* what p_libsys_init does before p_atomic_thread_init */
+#endif
   p_atomic_thread_init();
 #ifdef VMA_HB
   vma_hb_track(&F); vma_hb_track(&G);
